@@ -598,7 +598,35 @@ fn len_helpers(cfg: &Cfg) -> Report {
 fn value_layouts(cfg: &Cfg) -> Report {
     use acpi_tables::{gas, hest, sdt::GenericAddress};
     use zerocopy::IntoBytes;
-    par_cases(cfg, "layout.values", cfg.scaled(if cfg.tier == Tier::Thorough { 400_000 } else { 20_000 }), |cx| {
+    // GAS::new over a full grid: every address space x access size x widths x offsets x addresses
+    let mut grid = par_cases(cfg, "layout.gas_grid", 13 * 5 * 9 * 3 * 3, |cx| {
+        let mut i = cx.idx;
+        let space = (i % 13) as u8;
+        i /= 13;
+        let access = (i % 5) as u8;
+        i /= 5;
+        let width = [0u8, 1, 7, 8, 16, 32, 64, 128, 255][(i % 9) as usize];
+        i /= 9;
+        let offset = [0u8, 1, 255][(i % 3) as usize];
+        i /= 3;
+        let addr = [0u64, 0x1000, 0xFFFF_8000_0000_0001][(i % 3) as usize];
+        let g = GasArg { space, width, offset, access, addr };
+        cx.eval();
+        cx.obs();
+        let got = to_vec(&crate::tables::real::mk_gas(&g));
+        let want = crate::tables::reference::gas(&g);
+        if got != want {
+            cx.violation(
+                "gas::GAS::new is not encoded as the specification prescribes".to_string(),
+                obj(vec![("input", format!("{:?}", g).into()), ("observed", crate::json::hex(&got).into()), ("expected", crate::json::hex(&want).into())]),
+            );
+            return;
+        }
+        cx.rep.cov("value_layout:gas_grid");
+        cx.rep.distinct(&cx.idx);
+    });
+    grid.exhaustive("C04 gas::GAS::new over 13 address spaces x 5 access sizes x 9 widths x 3 offsets x 3 addresses");
+    let mut rep = par_cases(cfg, "layout.values", cfg.scaled(if cfg.tier == Tier::Thorough { 400_000 } else { 20_000 }), |cx| {
         let mut r = cx.rng.clone();
         cx.eval();
         let cmp = |cx: &mut CaseCtx, what: &str, got: &[u8], want: &[u8], desc: String| {
@@ -674,5 +702,7 @@ fn value_layouts(cfg: &Cfg) -> Report {
                 cx.rep.distinct(&(c, u, sev));
             }
         }
-    })
+    });
+    rep.merge(grid);
+    rep
 }
